@@ -29,7 +29,7 @@ class Conn(object):
         self.alive = True
         self.partial = None      # a message whose first part was written but not the rest
         self.stalled = False     # does not read its socket
-        self.inflight = []       # (sender unique, serial, [descriptors]) accepted for it while stalled
+        self.inflight = []       # (sender unique, serial, [descriptors], type, optional) accepted while not reading
         self.uncertain = []      # descriptors whose fate is timing-dependent
 
 
@@ -78,6 +78,9 @@ class Model(object):
                 return c
         return None
 
+    def denied(self, r, h):
+        return any(n in r.names and h >= min_fds for n, min_fds in self.deny.items())
+
     # ---------------------------------------------------------------- descriptors entering the bus
     def absorb(self, conn, fds, first_byte=True):
         """conn wrote bytes with `fds` attached.  Returns None, 'disconnect:too-many-fds' or 'ambiguous'."""
@@ -96,8 +99,10 @@ class Model(object):
         return None
 
     # ---------------------------------------------------------------- a complete message
-    def route(self, conn, mtype, dest, h, size, malformed=False):
-        """The last byte of a message of `size` bytes announcing h descriptors arrived from conn."""
+    def route(self, conn, mtype, dest, h, size, malformed=False, requested_reply=False):
+        """The last byte of a message of `size` bytes announcing h descriptors arrived from conn.
+        requested_reply: the message is the expected reply to a pending call (dbus-daemon(1): a <deny> rule
+        without send_requested_reply="true" matches replies only when they were not requested)."""
         h = h or 0
         if size > self.max_size:
             return Outcome("disconnect", "oversized")
@@ -112,14 +117,16 @@ class Model(object):
         if dest is None:
             if mtype != 4:
                 return Outcome("driver", fds=fds)     # for the bus itself / nobody
-            rec = [c for c in self.conns.values() if c.alive and c.match and (h == 0 or c.negotiated)]
+            # the send policy is evaluated once per proposed recipient (a <deny send_destination=N .../> rule
+            # applies to every message that would reach a connection owning N)
+            rec = [c for c in self.conns.values() if c.alive and c.match and (h == 0 or c.negotiated)
+                   and not self.denied(c, h)]
             return Outcome("broadcast", recipients=rec, fds=fds)
         r = self.owner(dest)
         if r is None:
             return Outcome("refuse", "no-such-name", fds=fds)
-        for n, min_fds in self.deny.items():
-            if n in r.names and h >= min_fds:
-                return Outcome("refuse", "policy", fds=fds)
+        if not requested_reply and self.denied(r, h):
+            return Outcome("refuse", "policy", fds=fds)
         if h > 0 and not r.negotiated:
             return Outcome("refuse", "recipient-not-negotiated", fds=fds)
         return Outcome("deliver", recipients=[r], fds=fds)
@@ -133,6 +140,6 @@ class Model(object):
         for c in self.conns.values():
             allowed += c.q
             allowed += c.uncertain
-            for (_, _, fds) in c.inflight:
-                allowed += fds
+            for x in c.inflight:
+                allowed += x[2]
         return allowed
